@@ -47,7 +47,8 @@ Inductive op :=
 | OAdd (k v : bytes)
 | ODel (k v : bytes)
 | OBatch (adds dels : list (bytes * bytes))
-| OBackupRestore.
+| OBackupRestore
+| OReopen.        (* close the store and open the same directory again *)
 
 (* one step: new map and "the operation failed".  ord = the order in which the
    additions of one batch are taken (the identity in the plain reading; the code
@@ -58,6 +59,7 @@ Definition spec_step (ord : list (bytes * bytes) -> list (bytes * bytes)) (m : s
   | ODel k v => match m_del m k v with Some m' => (m', false) | None => (m, true) end
   | OBatch adds dels => match m_batch m (ord adds) dels with Some m' => (m', false) | None => (m, true) end
   | OBackupRestore => (m, false)
+  | OReopen => (m, false)
   end.
 
 (* final map and the failure flags of all steps *)
